@@ -89,18 +89,28 @@ func c05Mutants(prog *pt.Prog, rule string) []*pt.Prog {
 				return e
 			})
 		case "R4": // type mismatch: replace each expression slot by a literal of another type
-			lits := []pt.Expr{pt.N(1), pt.S("s"), pt.B(true), pt.A(pt.N(1)), pt.M("k", pt.N(1))}
+			// ... or by a variable of type any (which is not a bool, num, string, array or map where one is required)
+			lits := []pt.Expr{pt.N(1), pt.S("s"), pt.B(true), pt.A(pt.N(1)), pt.M("k", pt.N(1)), pt.V("zzany")}
+			usedAny := false
 			m = pt.MapExprs(prog, func(e pt.Expr, slot string) pt.Expr {
 				if slot == "target" || slot == "callstmt" {
 					return e
 				}
-				for _, l := range lits {
+				for i, l := range lits {
+					anySlot := slot == "cond" || slot == "index" || slot == "indexed" || slot == "range" || slot == "operand"
+					if i == len(lits)-1 && !anySlot {
+						continue // any is substituted where a concrete type is required by the construct itself; the typing of literals that mix any with other elements is C04's subject
+					}
 					if site() {
+						usedAny = i == len(lits)-1
 						return l
 					}
 				}
 				return e
 			})
+			if usedAny {
+				m = &pt.Prog{Stmts: append([]pt.Stmt{pt.TypedDecl{Name: "zzany", T: pt.TAny}, pt.Assign{Target: pt.V("zzany"), X: pt.B(true)}}, m.Stmts...)}
+			}
 		case "R5": // wrong argument count: drop the last / add one argument at each call
 			m = pt.MapExprs(prog, func(e pt.Expr, slot string) pt.Expr {
 				c, ok := e.(pt.Call)
